@@ -640,6 +640,12 @@ async def _timer(
             state=state,
         )
         state = state.with_outcomes(outcomes)
+
+        # Remember the permanent failure at the moment of failing: the stopper can be set while
+        # the results are being patched, but that must not make the timer re-spawnable & retried.
+        if state.done and state.counts.failure:
+            memory.forever_stopped.add(handler.id)
+
         progression.deliver_results(outcomes=outcomes, patch=patch)
         _, remaining_patch = await application.patch_and_check(
             settings=settings,
